@@ -52,12 +52,76 @@ func argName(e ast.Expr) string {
 // and self-recursion with reversed arguments (symmetric normalisation).
 var numberedName = regexp.MustCompile(`^[A-Za-z]{1,2}[0-9]+$`)
 
-// argSwapExceptions: deliberate reversals, confirmed by reading.
-var argSwapExceptions = map[string]string{
-	"render3d.*RefractMaterial.DestDensity calls SourceDensity: dest for parameter source":             "deliberate reversal: the destination density of a refraction is the source density with the roles exchanged and the normal negated",
-	"render3d.*RefractMaterial.DestDensity calls SourceDensity: source for parameter dest":             "deliberate reversal (see above)",
-	"render3d.*RefractMaterial.SourceDensity calls reflectAmount: dest for parameter source":           "SampleSource chooses reflection with probability reflectAmount(normal, dest); its density must use the same probability (sampler/density agreement is checked by SAMPLERPAIR)",
-	"render3d.*RefractMaterial.DestDensity calls SourceDensity with (dest, source) for (source, dest)": "the destination density of a refraction is by definition the source density with the roles reversed and the normal negated (the sibling SampleDest does the same)",
+// deliberateReversal recognises the two idioms (enumerated from the tree, both
+// in render3d/material.go) in which an argument is passed in another
+// parameter's role on purpose. They are stated on the structure, not on the
+// names of particular functions, so renaming a helper does not turn an
+// accepted site into a report:
+//
+//	(1) twin delegation: a method whose name contains "Dest" calls the method
+//	    of the same name with "Source" instead (or vice versa) — the
+//	    destination-side quantity IS the source-side quantity with the roles
+//	    exchanged;
+//	(2) sampler/density agreement: an XDensity method calls a helper with
+//	    exactly the argument list its sampler SampleX (same receiver type)
+//	    uses — the density must be computed from what the sampler draws from,
+//	    whatever the helper calls its parameters.
+func deliberateReversal(p *packages.Package, stack []ast.Node, enc string, callee *types.Func, call *ast.CallExpr) string {
+	var fd *ast.FuncDecl
+	for i := len(stack) - 1; i >= 0; i-- {
+		if f, ok := stack[i].(*ast.FuncDecl); ok {
+			fd = f
+			break
+		}
+	}
+	if fd == nil {
+		return ""
+	}
+	name := fd.Name.Name
+	twin := func(a, b string) bool {
+		return strings.Contains(a, "Dest") && strings.Replace(a, "Dest", "Source", 1) == b ||
+			strings.Contains(a, "Source") && strings.Replace(a, "Source", "Dest", 1) == b
+	}
+	if twin(name, callee.Name()) {
+		return "twin delegation: " + name + " is " + callee.Name() + " with the source and destination roles exchanged"
+	}
+	if strings.HasSuffix(name, "Density") && fd.Recv != nil && len(fd.Recv.List) == 1 {
+		sampler := "Sample" + strings.TrimSuffix(name, "Density")
+		recvT := typeNameOf(p.TypesInfo.TypeOf(fd.Recv.List[0].Type))
+		want := callArgString(call)
+		for _, file := range p.Syntax {
+			for _, d := range file.Decls {
+				sd, ok := d.(*ast.FuncDecl)
+				if !ok || sd.Body == nil || sd.Name.Name != sampler || sd.Recv == nil || len(sd.Recv.List) != 1 {
+					continue
+				}
+				if typeNameOf(p.TypesInfo.TypeOf(sd.Recv.List[0].Type)) != recvT {
+					continue
+				}
+				found := false
+				ast.Inspect(sd.Body, func(n ast.Node) bool {
+					if c2, ok := n.(*ast.CallExpr); ok {
+						if f2, ok := typeutil.Callee(p.TypesInfo, c2).(*types.Func); ok && f2 == callee && callArgString(c2) == want {
+							found = true
+						}
+					}
+					return true
+				})
+				if found {
+					return "sampler/density agreement: " + sampler + " calls " + callee.Name() + " with the same arguments"
+				}
+			}
+		}
+	}
+	return ""
+}
+
+func callArgString(call *ast.CallExpr) string {
+	var parts []string
+	for _, a := range call.Args {
+		parts = append(parts, types.ExprString(a))
+	}
+	return strings.Join(parts, ", ")
 }
 
 // argRoleRule, when set, makes runArgSwap also emit ARGROLE obligations.
@@ -144,7 +208,7 @@ func (c *Ctx) runArgSwap(rule string, pkgs []*packages.Package, fileOK func(name
 						if id.Name == pi.Name() {
 							c.ok(argRoleRule, key, call.Pos(), "the caller's parameter of the same name is passed")
 						} else if isParam && types.Identical(other, pi.Type()) {
-							if why, ok := argSwapExceptions[key]; ok {
+							if why := deliberateReversal(p, stack, enc, fn, call); why != "" {
 								c.except(argRoleRule, key, call.Pos(), why)
 							} else {
 								c.bad(argRoleRule, key, call.Pos(), fmt.Sprintf("the callee's parameter %s has a namesake among the caller's own parameters (same type %s), but the caller's parameter %s is passed instead: the roles are confused", pi.Name(), pi.Type(), id.Name))
@@ -178,7 +242,7 @@ func (c *Ctx) runArgSwap(rule string, pkgs []*packages.Package, fileOK func(name
 						}
 						c.analysed(p.PkgPath + "." + enc)
 						key := fmt.Sprintf("%s.%s calls %s with (%s, %s) for (%s, %s)", shortPkg(p.PkgPath), enc, fn.Name(), ai, aj, pi.Name(), pj.Name())
-						if why, ok := argSwapExceptions[key]; ok && swapped {
+						if why := deliberateReversal(p, stack, enc, fn, call); why != "" && swapped {
 							c.except(rule, key, call.Pos(), why)
 						} else if swapped {
 							c.bad(rule, key, call.Pos(), fmt.Sprintf("arguments %d and %d are spelled like each other's parameter: %s is passed for parameter %s and %s for parameter %s (same type %s) — the two are swapped", i+1, j+1, ai, pi.Name(), aj, pj.Name(), pi.Type()))
